@@ -59,7 +59,7 @@ Lemma C01_prefilter_refuted : ~ C01_prefilter_stmt.
 Proof.
   intros H.
   destruct (C01_counterexample Smart (or_intror eq_refl)) as [H1 [H2 [H3 [H4 [H5 [H6 H7]]]]]].
-  rewrite (H _ _ _ _ _ _ H1 H2 H3 H4 H5 H6) in H7. discriminate H7.
+  rewrite (H _ _ _ _ _ _ H2 H3 H4 H5 H6) in H7. discriminate H7.
 Qed.
 Print Assumptions C01_prefilter_refuted.
 
@@ -624,7 +624,7 @@ Qed.
 (* the stated property plus ONE hypothesis: [C01_ellipsis_hyp p = true] *)
 Definition C01_prefilter_partial_stmt : Prop :=
   forall src root p t e e',
-    pwf (p_node p) = true -> wfb root = true -> in_source src root ->
+    wfb root = true -> in_source src root ->
     In t (preorder root) ->
     unnamed_by_kind src (p_node p) t ->
     C01_ellipsis_hyp p = true ->
@@ -633,7 +633,7 @@ Definition C01_prefilter_partial_stmt : Prop :=
 
 Lemma C01_prefilter_partial : C01_prefilter_partial_stmt.
 Proof.
-  intros src root p t e e' _ _ _ _ Hu Hh Hm. eapply C01_prefilter_partial_min; eassumption.
+  intros src root p t e e' _ _ _ Hu Hh Hm. eapply C01_prefilter_partial_min; eassumption.
 Qed.
 Print Assumptions C01_prefilter_partial.
 
@@ -641,7 +641,7 @@ Print Assumptions C01_prefilter_partial.
 Definition C01_prefilter_ast_relaxed_signature_stmt : Prop :=
   forall src root p t e e',
     p_strict p = Ast \/ p_strict p = Relaxed \/ p_strict p = Signature ->
-    pwf (p_node p) = true -> wfb root = true -> in_source src root ->
+    wfb root = true -> in_source src root ->
     In t (preorder root) ->
     unnamed_by_kind src (p_node p) t ->
     pattern_match src p t e = Matched e' ->
@@ -649,7 +649,7 @@ Definition C01_prefilter_ast_relaxed_signature_stmt : Prop :=
 
 Lemma C01_prefilter_ast_relaxed_signature : C01_prefilter_ast_relaxed_signature_stmt.
 Proof.
-  intros src root p t e e' Hs _ _ _ _ Hu Hm. eapply C01_prefilter_partial_min; [exact Hu| |exact Hm].
+  intros src root p t e e' Hs _ _ _ Hu Hm. eapply C01_prefilter_partial_min; [exact Hu| |exact Hm].
   unfold C01_ellipsis_hyp. destruct Hs as [->|[->| ->]]; reflexivity.
 Qed.
 Print Assumptions C01_prefilter_ast_relaxed_signature.
